@@ -50,6 +50,53 @@ def case_numeric_jacobian(case):
     return {"x": [str(s) for s in shape_sys.x_], "points": out}
 
 
+MIXED_SYSTEMS = [
+    {"dynamics": [{"expression": "V_m' = (-g_L*(V_m - E_L) - g_ex*(V_m - E_ex) - w)/C_m", "initial_value": "-65"},
+                  {"expression": "w' = (a*(V_m - E_L) - w**3/50)/tau_w", "initial_value": "0.5"},
+                  {"expression": "g_ex' = -g_ex/tau_syn", "initial_value": "1.5"}],
+     "parameters": {"g_L": "0.1", "E_L": "-65", "E_ex": "0", "C_m": "2", "a": "0.05", "tau_w": "20", "tau_syn": "3"}, "spike_var": "g_ex"},
+    {"dynamics": [{"expression": "x' = -x*I - x**3", "initial_value": "1"},
+                  {"expression": "I'' = -I/tau**2 - 2*I'/tau", "initial_values": {"I": "0", "I'": "e/tau"}}],
+     "parameters": {"tau": "2"}, "spike_var": "I__d"},
+]
+
+
+def case_mixed_jacobian(case):
+    """numerical_jacobian vs finite differences of step() on a MIXED analytic+numeric system, at several times (before and
+    after a spike on the analytically solved variable), after a short integration has initialised the analytic integrator"""
+    import numpy as np
+    import random
+    import sympy
+    odetoolbox = tb.import_toolbox(standin=True)
+    tb.reset_config()
+    import pygsl.odeiv as odeiv
+    from odetoolbox.mixed_integrator import MixedIntegrator
+    indict = {k: v for k, v in case["indict"].items() if k != "spike_var"}
+    res, shape_sys, shapes = odetoolbox._analysis(json.loads(json.dumps(indict)), disable_stiffness_check=True)
+    ana = [s_ for s_ in res if s_["solver"] == "analytical"][0]
+    num = [s_ for s_ in res if s_["solver"].startswith("numeric")][0]
+    sub = shape_sys.get_sub_system([sympy.Symbol(v) for v in num["state_variables"]])
+    mi = MixedIntegrator(odeiv.step_bsimp, sub, shapes, analytic_solver_dict=ana, parameters=indict.get("parameters"),
+                         spike_times={case["indict"]["spike_var"]: [2.0, 5.0]}, sim_time=1.0, max_step_size=0.25)
+    mi.integrate_ode(h_min_lower_bound=1e-14, raise_errors=False, debug=True)
+    rng = random.Random(case["seed"])
+    x = [str(s_) for s_ in sub.x_]
+    n = len(x)
+    out = []
+    y0 = np.array([float(v) for v in [sub.get_initial_value(v).evalf(subs=mi._parameters) for v in x]])
+    for t in (0.0, 1.5, 2.5, 6.0, 0.75):
+        y = y0 * (1 + 0.1 * rng.uniform(-1, 1))
+        J, _ = mi.numerical_jacobian(t, y, None)
+        fd = np.zeros((n, n))
+        for j in range(n):
+            h = 1e-6 * max(1.0, abs(y[j]))
+            e = np.zeros(n)
+            e[j] = h
+            fd[:, j] = (np.array(mi.step(t, y + e, None), dtype=float) - np.array(mi.step(t, y - e, None), dtype=float)) / (2 * h)
+        out.append({"t": t, "y": [float(v) for v in y], "J": [[float(v) for v in row] for row in J], "fd": [[float(v) for v in row] for row in fd]})
+    return {"x": x, "points": out}
+
+
 def run(ctx, driver):
     tb.import_toolbox(standin=True)
     quick = ctx.tier == "quick"
@@ -106,6 +153,23 @@ def run(ctx, driver):
                         ctx.fail("numerical-jacobian-vs-finite-differences", case, {"row": res["x"][i], "column": res["x"][j], "jacobian": a, "finite_difference": b, "y": pt["y"],
                                                                                   "signature": {"site": "numerical_jacobian"}})
                         break
+    mcases = [{"indict": MIXED_SYSTEMS[i % len(MIXED_SYSTEMS)], "seed": ctx.seed * 100 + i} for i in range(ctx.n(2, 12))]
+    mres = pool.run_cases("harness.props.c10", "case_mixed_jacobian", mcases, timeout=150, init="_init_worker", deadline=ctx.deadline())
+    for case, res in zip(mcases, mres):
+        ctx.evaluations += 1
+        if not _shared.usable(ctx, res, "mixed:"):
+            continue
+        ctx.count("mixed_jacobian_cases")
+        ctx.note_nontrivial(json.dumps(case, sort_keys=True))
+        done = False
+        for pt in res["points"]:
+            for i, (rj, rf) in enumerate(zip(pt["J"], pt["fd"])):
+                for j, (a, b) in enumerate(zip(rj, rf)):
+                    if not done and abs(a - b) > 1e-4 * max(1.0, abs(a), abs(b)):
+                        ctx.fail("numerical-jacobian-vs-finite-differences", {k: v for k, v in case["indict"].items()},
+                                 {"t": pt["t"], "row": res["x"][i], "column": res["x"][j], "jacobian": a, "finite_difference": b, "y": pt["y"],
+                                  "signature": {"site": "numerical_jacobian", "mixed": True}})
+                        done = True
     ctx.assumptions += [
         "sympy.diff is a derivation with d x_j / d x_k = delta_jk (contract; the final entries are compared with an independent differentiation of the user's text)",
         "numerical clause: lambdify replaces Cython autowrap; finite differences with h=1e-6, tolerance 1e-5 relative (runtime observation, not part of the theorem)",
